@@ -21,6 +21,7 @@ def run(prog, chk):
     chk.defer(record_table, prog, chk)
     chk.defer(_run, prog, chk)
     chk.defer(final_result_writers, prog, chk)
+    chk.defer(wrapper_verdict, prog, chk)
 
 
 def _run(prog, chk):
@@ -346,6 +347,13 @@ def policy_objects_table(prog, chk):
     paths = I.run()
     ok = len(paths) == 1 and not paths[0].undetermined and paths[0].ret == 0 and I.read(paths[0], "P->fallbackPolicy") == Ptr("FB")
     chk.ob("C05.objects", "KSI_Policy_setFallback", ok, "the policy's fallback becomes the given policy", loc=fs.loc(), fn=fs)
+
+
+def wrapper_verdict(prog, chk):
+    from . import policy_common as PC
+    chk.rule("C05.wrapper", "the status reported by the verifying wrapper (behind parse / sign / extend) is KSI_OK exactly when the last policy "
+                            "evaluated ended OK, whatever earlier policies of a fallback chain left in the result lists", floor=12)
+    PC.check_verify_verdict(prog, chk, "C05.wrapper")
 
 
 def record_table(prog, chk):
